@@ -5,6 +5,8 @@ import time
 from .. import f1, gen, runner, wasm, pools, interp, e2e
 from ..wasm import I32, I64, F32, F64, Module, Func
 
+from . import c05  # noqa: F401  (registers the 2 GiB generator)
+
 ID = 'C07'
 LEVEL = 'exploration'
 RULE = ('round trip constant -> C text -> compiled bits. Each module carries hundreds of constants in every position a '
@@ -12,7 +14,7 @@ RULE = ('round trip constant -> C text -> compiled bits. Each module carries hun
         'initialisers (read by a getter function and from the instance struct), data-segment offsets (observed by where the '
         'bytes land) and element-segment offsets (observed by which table slot holds the function), and bodies with 2-6 constants '
         'stored to memory in which each constant is equal or related to its predecessor (f32 x / f64 (double)x in both orders, '
-        'i32 v / i64 v, the same literal twice). Values: the boundary '
+        'i32 v / i64 v, the same literal twice); data-segment offsets at and above 2^31 in memories of just over 2 GiB. Values: the boundary '
         'pools (all NaN classes incl. signalling / payload-in-low-bits / payload-in-high-bits, -0, infinities, subnormals, '
         'extremes, INT_MIN, decimal round-trip hard cases) and seeded random bit patterns. Non-trivial = NaN/inf/-0/'
         'subnormal/extreme-exponent float, a float needing >= 8 (f32) / >= 16 (f64) significant decimal digits, or an '
@@ -148,9 +150,13 @@ def make_consts(ch, params):
 def plan(tier, seed):
     if tier == 'quick':
         ccs = ['gcc-O0', 'clang-O0', 'gcc-O2-gnu89', 'clang-O2']
-        return [{'maker': 'c07_consts', 'ncases': 12, 'ccs': ccs, 'nconst': 400, 'shrink_budget': 40} for _ in range(32)]
+        # segment offsets with the sign bit set (0x7ffffffc ... just below the memory's end) need a memory of more than 2 GiB: the
+        # generator C05 uses for such memories, a few cases
+        big = [{'maker': 'c05_bigmem', 'ncases': 2, 'ccs': ['gcc-O0', 'clang-O2'], 'shrink_budget': 5, 'encoding_knobs': False} for _ in range(3)]
+        return [{'maker': 'c07_consts', 'ncases': 12, 'ccs': ccs, 'nconst': 400, 'shrink_budget': 40} for _ in range(32)] + big
     ccs = ['gcc-O0', 'clang-O0', 'gcc-O2-gnu89', 'clang-O2', 'gcc-O0-gnu89', 'clang-O0-gnu89', 'gcc-O3', 'clang-O3']
-    return [{'maker': 'c07_consts', 'ncases': 150, 'ccs': ccs, 'nconst': 600, 'shrink_budget': 60} for _ in range(64)]
+    big = [{'maker': 'c05_bigmem', 'ncases': 20, 'ccs': ['gcc-O0', 'clang-O2', 'gcc-O2', 'clang-O0'], 'shrink_budget': 5, 'encoding_knobs': False} for _ in range(6)]
+    return [{'maker': 'c07_consts', 'ncases': 150, 'ccs': ccs, 'nconst': 600, 'shrink_budget': 60} for _ in range(64)] + big
 
 
 def replay(rp):
